@@ -25,11 +25,11 @@ PLAN = {
     "thorough": {"shards": 16, "shard_timeout": 3600, "case_timeout": 40, "grammars": 5000, "max_case_timeouts": 80},
 }
 THRESHOLDS = {
-    "quick": {"programs_depth_checked": 3000, "frontier_programs": 500, "infeasible_probes": 40, "after_variation": 300, "via:ge": 100, "via:sge": 100, "via:dsge": 100, "via:direct": 300, "via:fullinit": 50, "create_node_entries_seen": 1000, "sibling_grammars_run": 150, "deep_limit_programs": 100, "programs_deeper_than_100": 60},
+    "quick": {"programs_depth_checked": 3000, "frontier_programs": 500, "infeasible_probes": 40, "after_variation": 300, "via:ge": 100, "via:sge": 100, "via:dsge": 100, "via:direct": 300, "via:fullinit": 50, "via:rampedinit": 50, "via:pigrowinit": 50, "create_node_entries_seen": 1000, "sibling_grammars_run": 150, "deep_limit_programs": 100, "programs_deeper_than_100": 60},
     "thorough": {"programs_depth_checked": 60000, "frontier_programs": 10000, "infeasible_probes": 500, "after_variation": 6000},
 }
 
-VIAS = [("direct", "maxdepth"), ("direct", "full"), ("direct", "pigrow"), ("ge", "maxdepth"), ("ge", "pigrow"), ("sge", "maxdepth"), ("sge", "full"), ("dsge", "own"), ("fullinit", "full")]
+VIAS = [("direct", "maxdepth"), ("direct", "full"), ("direct", "pigrow"), ("ge", "maxdepth"), ("ge", "pigrow"), ("sge", "maxdepth"), ("sge", "full"), ("dsge", "own"), ("fullinit", "full"), ("rampedinit", "maxdepth"), ("pigrowinit", "maxdepth")]
 
 
 def gen_cases(tier, seed):
@@ -190,6 +190,32 @@ def _make(case, g, d, src):
                 return rep.crossover(random, a, b, decider=workload.make_decider("full", random, g, d))
 
         return InitRep(), "tree"
+    if via in ("rampedinit", "pigrowinit"):
+        from geneticengine.representations.tree.operators import PositionIndependentGrowInitializer, RampedHalfAndHalfInitializer
+
+        # the representation's own decider allows MORE than the initialiser's limit: the initialiser's limit is what counts
+        rep = TreeBasedRepresentation(g, workload.make_decider("maxdepth", src, g, max(d, g.get_min_tree_depth()) + 3))
+        init = (RampedHalfAndHalfInitializer if via == "rampedinit" else PositionIndependentGrowInitializer)(max_depth=d)
+        prob = SingleObjectiveProblem(lambda x: 0.0)
+
+        class InitRep2:
+            def __init__(self):
+                self.rep = rep
+
+            def create_genotype(self, random, **kw):
+                out = [i.genotype for i in init.initialize(prob, rep, random, 2)]  # both halves of the initialiser
+                return out[random.randint(0, len(out) - 1)]
+
+            def genotype_to_phenotype(self, x):
+                return x
+
+            def mutate(self, random, x, **kw):
+                return rep.mutate(random, x, decider=workload.make_decider("maxdepth", random, g, d))
+
+            def crossover(self, random, a, b, **kw):
+                return rep.crossover(random, a, b, decider=workload.make_decider("maxdepth", random, g, d))
+
+        return InitRep2(), "tree"
     raise ValueError(via)
 
 
